@@ -374,10 +374,13 @@ impl CodeGen {
                 Instr::Inp(dst) => {
                     self.emit_pre_call(live);
                     self.emit_mov_rm64_r64(RegMem::Reg(Reg::Rdi), Reg::cxt());
+                    self.emit_lea(Reg::Rsi, self.mem_param::<C>(dst));
                     self.emit_mov_r64_i64(Reg::scr0(), hpbf_context_input::<C> as usize as i64);
                     self.emit_call_ind(RegMem::Reg(Reg::scr0()));
                     self.emit_post_call(live);
-                    self.emit_store_reg::<C>(dst, Reg::Rax);
+                    self.emit_test_rm8_r8(RegMem::Reg(Reg::Rax), Reg::Rax);
+                    self.emit_jcc_rel32(JmpPred::NotEqual, 0);
+                    self.reloc_term.push(self.code.len() - 4);
                 }
                 Instr::Out(src) => {
                     self.emit_pre_call(live);
